@@ -311,6 +311,191 @@ def check(ctx, repo, T, rel, cls, fn, construct, rule='R00'):
                 'score it returns but never asks that component for its '
                 'sensitivities: the returned gradient is not the derivative '
                 'of the returned score' % (construct, norm_stmt(c)[:50], rr))
+    # ---- L47 -------------------------------------------------------------
+    # the process-wide numpy stream is re-seeded although every draw that
+    # follows has a Generator equivalent (pints priors and scipy `rvs`
+    # without `random_state` can only be seeded globally; `np.random.normal`
+    # and its siblings cannot claim that)
+    seeds = [c for c in ast.walk(fn) if isinstance(c, ast.Call) and U(
+        c.func) in ('np.random.seed', 'numpy.random.seed')]
+    if seeds:
+        from .rng import _is_global_draw
+        draws = [(_is_global_draw(c), c) for c in ast.walk(fn)
+                 if isinstance(c, ast.Call)]
+        draws = [(g, c) for g, c in draws if g]
+        if draws and all(g.startswith('numpy global stream')
+                         for g, c in draws):
+            bad += 1
+            ctx.violation(
+                rule, repo.loc(seeds[0], cls, fn.name), construct,
+                'L47 avoidable global reseed',
+                '`%s` resets the process-wide random stream for `%s`, a '
+                'draw that a local `np.random.default_rng(seed)` provides: '
+                'a seeded call then changes what every other unseeded or '
+                'globally seeded draw in the process returns' % (
+                    norm_stmt(seeds[0])[:40],
+                    norm_stmt(draws[0][1])[:40]))
+    # ---- L48 -------------------------------------------------------------
+    # (a) a cached object handed out uncopied on the path that fills the
+    #     cache although the path that finds it filled returns a copy;
+    # (b) instance state stored in a class-level container (shared by all
+    #     instances of the class)
+    copies_of = {}      # slot text -> return node that copies from the slot
+    for r_ in ast.walk(fn):
+        if isinstance(r_, ast.Return) and r_.value is not None:
+            v = r_.value
+            inner = None
+            if isinstance(v, ast.Call):
+                f = U(v.func)
+                if f in ('copy.copy', 'copy.deepcopy') and v.args:
+                    inner = v.args[0]
+                elif isinstance(v.func, ast.Attribute) and v.func.attr in (
+                        'copy', 'clone', '__deepcopy__'):
+                    inner = v.func.value
+            if inner is not None:
+                base = inner
+                while isinstance(base, ast.Subscript):
+                    base = base.value
+                t_ = _recv_text(base)
+                if t_ and t_.startswith('self.'):
+                    copies_of[t_] = r_
+    if copies_of:
+        for a in ast.walk(fn):
+            if not (isinstance(a, ast.Assign) and len(a.targets) == 1
+                    and isinstance(a.value, ast.Name)):
+                continue
+            base = a.targets[0]
+            while isinstance(base, ast.Subscript):
+                base = base.value
+            t_ = _recv_text(base)
+            if t_ not in copies_of:
+                continue
+            v = a.value.id
+            for r_ in ast.walk(fn):
+                if isinstance(r_, ast.Return) and isinstance(
+                        r_.value, ast.Name) and r_.value.id == v \
+                        and r_.lineno > a.lineno:
+                    bad += 1
+                    ctx.violation(
+                        rule, repo.loc(r_, cls, fn.name), construct,
+                        'L48 cache master returned %s' % t_,
+                        '`%s` is stored in `%s` and returned as it is, while '
+                        'the path that finds the cache filled returns a copy '
+                        '(`%s`): the first caller holds the master, and '
+                        'whatever it configures shows in every later copy' % (
+                            v, t_, norm_stmt(copies_of[t_])[:50]))
+    if cls:
+        for a in ast.walk(fn):
+            if not isinstance(a, ast.Assign):
+                continue
+            for t in a.targets:
+                base = t
+                while isinstance(base, (ast.Subscript,)):
+                    base = base.value
+                if not (isinstance(base, ast.Attribute) and (
+                        (isinstance(base.value, ast.Name) and (
+                            repo.has_cls(base.value.id)
+                            or base.value.id == 'cls'))
+                        or U(base.value) in ('type(self)',
+                                             'self.__class__'))):
+                    continue
+                if base is t and not isinstance(a.value, (
+                        ast.Name, ast.Attribute)):
+                    continue
+                srcs = [x for x in ast.walk(a.value) if isinstance(
+                    x, ast.Attribute) and isinstance(x.value, ast.Name)
+                    and x.value.id == 'self']
+                if srcs:
+                    bad += 1
+                    ctx.violation(
+                        rule, repo.loc(a, cls, fn.name), construct,
+                        'L48 instance state in class container %s' % U(
+                            base)[:40],
+                        '`%s` stores `%s`, state of this instance, in a '
+                        'class-level attribute: every instance of the class '
+                        '(in this process) sees and modifies the same '
+                        'object' % (norm_stmt(a)[:60], U(srcs[0])))
+    # ---- L49 -------------------------------------------------------------
+    # the sorting permutation of an array that is already sorted is the
+    # identity: whatever is re-ordered with it stays as it was
+    sorted_names = {}
+    for a in ast.walk(fn):
+        if isinstance(a, ast.Assign) and len(a.targets) == 1 and isinstance(
+                a.value, ast.Call) and U(a.value.func) in (
+                'np.sort', 'sorted', 'np.unique'):
+            t_ = _recv_text(a.targets[0]) if not isinstance(
+                a.targets[0], ast.Name) else a.targets[0].id
+            if t_:
+                sorted_names.setdefault(t_, []).append(a)
+    for c in ast.walk(fn):
+        if isinstance(c, ast.Call) and (U(c.func) == 'np.argsort' or (
+                isinstance(c.func, ast.Attribute)
+                and c.func.attr == 'argsort' and not c.args)):
+            arg = c.args[0] if U(c.func) == 'np.argsort' and c.args \
+                else c.func.value
+            hit = None
+            if isinstance(arg, ast.Call) and U(arg.func) in (
+                    'np.sort', 'sorted', 'np.unique'):
+                hit = arg
+            else:
+                t_ = arg.id if isinstance(arg, ast.Name) else _recv_text(arg)
+                defs = [a for a in ast.walk(fn) if isinstance(a, ast.Assign)
+                        and any((x.id if isinstance(x, ast.Name)
+                                 else _recv_text(x)) == t_
+                                for x in a.targets) and a.lineno < c.lineno]
+                if t_ and defs and max(defs, key=lambda a: a.lineno) in \
+                        sorted_names.get(t_, []):
+                    hit = max(defs, key=lambda a: a.lineno)
+            if hit is not None:
+                bad += 1
+                ctx.violation(
+                    rule, repo.loc(c, cls, fn.name), construct,
+                    'L49 argsort of sorted',
+                    '`%s` is the sorting permutation of a value that is '
+                    'already sorted (`%s`), i.e. the identity: the data '
+                    'that is re-ordered with it keeps the caller\'s order '
+                    'while the sorted values are used next to it' % (
+                        U(c)[:50], norm_stmt(hit)[:50]))
+    # ---- L50 -------------------------------------------------------------
+    # truthiness of an optional seed: 0 is a valid seed, not "no seed"
+    a_ = fn.args
+    pos, dfl = a_.args, a_.defaults
+    optional = {x.arg for x, d in list(zip(pos[len(pos) - len(dfl):], dfl))
+                + [(x, d) for x, d in zip(a_.kwonlyargs, a_.kw_defaults)
+                   if d is not None]
+                if isinstance(d, ast.Constant) and d.value is None}
+    if optional:
+        seeded = set()
+        for c in ast.walk(fn):
+            if isinstance(c, ast.Call):
+                f = U(c.func)
+                args = list(c.args) + [k.value for k in c.keywords
+                                       if k.arg in (None, 'seed')]
+                if f.endswith(('random.seed', 'random.default_rng',
+                               'random.RandomState', 'SeedSequence')):
+                    seeded |= {x.id for a in args for x in ast.walk(a)
+                               if isinstance(x, ast.Name)}
+                seeded |= {k.value.id for k in c.keywords
+                           if k.arg in ('seed', 'random_state')
+                           and isinstance(k.value, ast.Name)}
+        for n in ast.walk(fn):
+            if not isinstance(n, (ast.If, ast.IfExp, ast.While)):
+                continue
+            parts = n.test.values if isinstance(n.test, ast.BoolOp) \
+                else [n.test]
+            for x in parts:
+                if isinstance(x, ast.UnaryOp) and isinstance(x.op, ast.Not):
+                    x = x.operand
+                if isinstance(x, ast.Name) and x.id in optional \
+                        and x.id in seeded:
+                    bad += 1
+                    ctx.violation(
+                        rule, repo.loc(n, cls, fn.name), construct,
+                        'L50 truthiness of optional seed %s' % x.id,
+                        '`%s` decides by truthiness whether the optional '
+                        'seed `%s` was given: the valid seed 0 is treated '
+                        'like None, so a run seeded with 0 is not '
+                        'reproducible' % (U(n.test)[:40], x.id))
     return bad
 
 
